@@ -150,6 +150,61 @@ pub struct Observation {
     pub outcomes: Vec<TxExecutionOutcome>,
     pub bundle: BundleState,
     pub panic: Option<String>,
+    /// what the returned state serves through its database interface afterwards (`read_back`);
+    /// `None` when not collected (fault plans, panics)
+    pub reads: Option<Reads>,
+}
+
+/// Values served by a state's database interface over the case's universe: per address the
+/// account fields and the listed slots.
+pub type Reads = Vec<(Address, Option<(U256, u64, B256)>, Vec<(U256, U256)>)>;
+
+/// The universe of a read-back: every pre-state account and every account of the produced bundle;
+/// per account the pre-state slots, the bundle's slots and slots 0 and 1.
+fn read_back_universe(pre: &MemDb, bundle: &BundleState) -> Vec<(Address, Vec<U256>)> {
+    let mut u: BTreeMap<Address, std::collections::BTreeSet<U256>> = BTreeMap::new();
+    for (a, d) in &pre.accounts {
+        u.entry(*a).or_default().extend(d.storage.keys().copied());
+    }
+    for (a, acc) in &bundle.state {
+        u.entry(*a).or_default().extend(acc.storage.keys().copied());
+    }
+    u.into_iter()
+        .map(|(a, mut s)| {
+            s.insert(U256::ZERO);
+            s.insert(U256::from(1u64));
+            (a, s.into_iter().collect())
+        })
+        .collect()
+}
+
+/// Read the universe through the `DatabaseRef` interface (grevm's `ParallelState`).
+pub fn read_back<DB: DatabaseRef>(db: &DB, pre: &MemDb, bundle: &BundleState) -> Option<Reads> {
+    let mut out = Vec::new();
+    for (a, slots) in read_back_universe(pre, bundle) {
+        let info = db.basic_ref(a).ok()?.map(|i| (i.balance, i.nonce, i.code_hash));
+        let mut vs = Vec::with_capacity(slots.len());
+        for s in slots {
+            vs.push((s, db.storage_ref(a, s).ok()?));
+        }
+        out.push((a, info, vs));
+    }
+    Some(out)
+}
+
+/// The same through the `Database` (`&mut`) interface, which is what the EVM uses on revm's
+/// `State` (see `read_universe_mut`).
+pub fn read_back_mut<DB: revm::Database>(db: &mut DB, pre: &MemDb, bundle: &BundleState) -> Option<Reads> {
+    let mut out = Vec::new();
+    for (a, slots) in read_back_universe(pre, bundle) {
+        let info = db.basic(a).ok()?.map(|i| (i.balance, i.nonce, i.code_hash));
+        let mut vs = Vec::with_capacity(slots.len());
+        for s in slots {
+            vs.push((s, db.storage(a, s).ok()?));
+        }
+        out.push((a, info, vs));
+    }
+    Some(out)
 }
 
 pub fn normalize_bundle(mut b: BundleState) -> BundleState {
@@ -164,7 +219,8 @@ impl Observation {
         self.panic == other.panic &&
             self.error == other.error &&
             self.outcomes == other.outcomes &&
-            self.bundle == other.bundle
+            self.bundle == other.bundle &&
+            (self.reads.is_none() || other.reads.is_none() || self.reads == other.reads)
     }
 
     /// First difference, for the report.
@@ -187,7 +243,24 @@ impl Observation {
                 return format!("outcome[{i}]: got {a:?}, expected {b:?}");
             }
         }
-        bundle_diff(&self.bundle, &expected.bundle)
+        let d = bundle_diff(&self.bundle, &expected.bundle);
+        if d != "no difference" {
+            return d;
+        }
+        if let (Some(g), Some(e)) = (&self.reads, &expected.reads) {
+            for (x, y) in g.iter().zip(e.iter()) {
+                if x != y {
+                    return format!(
+                        "state served after the block: account {}: the returned state serves {:?} slots {:?}, revm State serves {:?} slots {:?}",
+                        short(&x.0), x.1, x.2, y.1, y.2
+                    );
+                }
+            }
+            if g.len() != e.len() {
+                return format!("state served after the block: {} accounts read, expected {}", g.len(), e.len());
+            }
+        }
+        d
     }
 }
 
@@ -339,9 +412,11 @@ pub fn reference(case: &Case, fault: Option<FaultPlan>) -> Expected {
         .with_precompiles(PrecompilesMap::from_static(Precompiles::new(
             PrecompileSpecId::from_spec_id(spec),
         )));
-    if let Some(pcs) = &case.precompiles {
-        for (address, precompile) in pcs.iter() {
-            let precompile = precompile.to_alloy();
+    if case.precompiles.is_some() {
+        // the same test bodies behind the harness's own facade and adapter (families/pc.rs): the
+        // reference does not go through grevm's `to_alloy`
+        for (address, precompile) in crate::families::pc::all_ref().iter() {
+            let precompile = precompile.clone();
             evm.precompiles.apply_precompile(address, move |_| Some(precompile));
         }
     }
@@ -388,9 +463,10 @@ pub fn reference(case: &Case, fault: Option<FaultPlan>) -> Expected {
     let st = &mut evm.ctx.journaled_state.database;
     st.merge_transitions(BundleRetention::Reverts);
     let bundle = normalize_bundle(st.take_bundle());
-    drop(evm);
     let keys_read = db.log.as_ref().map(|l| l.lock().unwrap().clone()).unwrap_or_default();
-    Expected { obs: Observation { error, outcomes, bundle, panic: None }, commits, keys_read }
+    let reads = if db.fault.is_none() { read_back_mut(st, &case.db, &bundle) } else { None };
+    drop(evm);
+    Expected { obs: Observation { error, outcomes, bundle, panic: None, reads }, commits, keys_read }
 }
 
 /// Several consecutive blocks on one revm `State` (merge after each block); returns all outcomes,
@@ -411,9 +487,11 @@ pub fn reference_blocks(
         .with_block(case.env.clone())
         .build_mainnet_with_inspector(NoOpInspector {})
         .with_precompiles(PrecompilesMap::from_static(Precompiles::new(PrecompileSpecId::from_spec_id(spec))));
-    if let Some(pcs) = &case.precompiles {
-        for (address, precompile) in pcs.iter() {
-            let precompile = precompile.to_alloy();
+    if case.precompiles.is_some() {
+        // the same test bodies behind the harness's own facade and adapter (families/pc.rs): the
+        // reference does not go through grevm's `to_alloy`
+        for (address, precompile) in crate::families::pc::all_ref().iter() {
+            let precompile = precompile.clone();
             evm.precompiles.apply_precompile(address, move |_| Some(precompile));
         }
     }
@@ -564,12 +642,25 @@ pub fn run_grevm_on(case: &Case, run: &RunCfg, db: Arc<ExecDb>) -> Observation {
         Entry::ParallelExecute(k) => scheduler.parallel_execute(Some(k)),
         Entry::FallbackSequential => scheduler.fallback_sequential(),
     }));
-    finish(scheduler, result)
+    let mut obs = finish_with(scheduler, result, if run.fault.is_none() { Some(&case.db) } else { None });
+    if run.fault.is_some() {
+        obs.reads = None;
+    }
+    obs
 }
 
 pub fn finish(
     scheduler: Scheduler<Arc<ExecDb>>,
     result: std::thread::Result<Result<(), grevm::GrevmError<DbErr>>>,
+) -> Observation {
+    finish_with(scheduler, result, None)
+}
+
+/// `pre`: when given, the returned state is read back over the case's universe afterwards.
+pub fn finish_with(
+    scheduler: Scheduler<Arc<ExecDb>>,
+    result: std::thread::Result<Result<(), grevm::GrevmError<DbErr>>>,
+    pre: Option<&MemDb>,
 ) -> Observation {
     match result {
         Err(payload) => Observation {
@@ -577,16 +668,18 @@ pub fn finish(
             outcomes: vec![],
             bundle: BundleState::default(),
             panic: Some(crate::explorer::payload_to_string(&payload)),
+            reads: None,
         },
         Ok(res) => {
             let error = res.err().map(|e| (e.txid, err_string(&e.error)));
             let taken = catch_unwind(AssertUnwindSafe(|| {
                 let (outcomes, mut state) = scheduler.take_result_and_state();
                 let bundle = normalize_bundle(state.parallel_take_bundle(BundleRetention::Reverts));
-                (outcomes, bundle)
+                let reads = pre.and_then(|pre| read_back(&state, pre, &bundle));
+                (outcomes, bundle, reads)
             }));
             match taken {
-                Ok((outcomes, bundle)) => Observation { error, outcomes, bundle, panic: None },
+                Ok((outcomes, bundle, reads)) => Observation { error, outcomes, bundle, panic: None, reads },
                 Err(payload) => Observation {
                     error,
                     outcomes: vec![],
@@ -595,6 +688,7 @@ pub fn finish(
                         "after execute: {}",
                         crate::explorer::payload_to_string(&payload)
                     )),
+                    reads: None,
                 },
             }
         }
